@@ -38,6 +38,12 @@ type c09SwLink struct {
 
 	fx   *c09Fixture
 	peer int
+	// addrs are the short channel ids a sender may use to address this
+	// link: its own ShortChanID, and for the alias flavours the
+	// confirmed scid / the aliases (the Switch maps all of them to the
+	// link through baseIndex).
+	addrs  []lnwire.ShortChannelID
+	flavor string
 
 	// Per case.
 	cs       *c09Case
@@ -130,13 +136,54 @@ func newC09SwFixture(t *testing.T) *c09SwFixture {
 		}
 	}()
 
+	// Channel flavours (added after seeded change C09e): besides regular
+	// channels, public zero-conf channels whose funding transaction has
+	// confirmed (the link keeps its alias as ShortChanID for life; senders
+	// use the alias or the confirmed scid) and public option-scid-alias
+	// channels (ShortChanID is the confirmed scid; senders use it or an
+	// alias). Private channels are left out: their failures hide the
+	// channel_update on purpose.
+	mkFlavor := func(n, peer int, flavor string) *c09SwLink {
+		var cid lnwire.ChannelID
+		cid[0], cid[1] = 0xc9, byte(n)
+		realScid := lnwire.NewShortChanIDFromInt(uint64(1000+n) << 40)
+		alias := lnwire.ShortChannelID{
+			BlockHeight: 16_000_000, TxIndex: uint32(n), TxPosition: 1,
+		}
+		alias2 := alias
+		alias2.TxPosition = 2
+		l := &c09SwLink{fx: f.fx, peer: peer, flavor: flavor}
+		switch flavor {
+		case "zeroconf":
+			l.mockChannelLink = newMockChannelLink(
+				s, cid, alias, realScid, peers[peer], true, false,
+				true, false,
+			)
+			l.mockChannelLink.addAlias(alias2)
+			l.addrs = []lnwire.ShortChannelID{alias, alias2, realScid}
+		case "scidalias":
+			l.mockChannelLink = newMockChannelLink(
+				s, cid, realScid, emptyScid, peers[peer], true, false,
+				false, true,
+			)
+			l.mockChannelLink.addAlias(alias)
+			l.mockChannelLink.addAlias(alias2)
+			l.addrs = []lnwire.ShortChannelID{realScid, alias, alias2}
+		default:
+			l.mockChannelLink = mk(n, peer)
+			l.addrs = []lnwire.ShortChannelID{realScid}
+		}
+
+		return l
+	}
+	flavors := [][]string{nil, {"regular", "zeroconf", "scidalias"},
+		{"zeroconf", "regular"}}
+
 	f.byPeer = make([][]int, 3)
 	n := 1
 	for peer, count := range []int{0, 3, 2} {
 		for i := 0; i < count; i++ {
-			l := &c09SwLink{
-				mockChannelLink: mk(n, peer), fx: f.fx, peer: peer,
-			}
+			l := mkFlavor(n, peer, flavors[peer][i])
 			n++
 			if err := s.AddLink(l); err != nil {
 				t.Fatalf("add link: %v", err)
@@ -252,6 +299,7 @@ func TestVerifC09Switch(t *testing.T) {
 		}
 
 		// The packet.
+		addressedBy := ""
 		f.htlcID++
 		atomic.StoreUint32(&f.s.bestHeight, base.Height)
 		htlc := &lnwire.UpdateAddHTLC{
@@ -283,7 +331,12 @@ func TestVerifC09Switch(t *testing.T) {
 			pkt.outgoingChanID = scid
 			pkt.outgoingHop = fn.NewLeft[lnwire.ShortChannelID, [33]byte](scid)
 		default:
-			scid := requested.ShortChanID()
+			scid := requested.addrs[c09Pick(rt, "addr",
+				len(requested.addrs))]
+			addressedBy = "own"
+			if scid != requested.ShortChanID() {
+				addressedBy = "other"
+			}
 			pkt.outgoingChanID = scid
 			pkt.outgoingHop = fn.NewLeft[lnwire.ShortChannelID, [33]byte](scid)
 		}
@@ -325,7 +378,8 @@ func TestVerifC09Switch(t *testing.T) {
 		case unknown:
 			labels = append(labels, "sw:unknown_scid")
 		default:
-			labels = append(labels, "sw:channel_addressed")
+			labels = append(labels, "sw:channel_addressed",
+				"sw:flavor:"+requested.flavor+":"+addressedBy)
 		}
 		if disagree {
 			labels = append(labels, "sw:candidates_disagree")
@@ -391,7 +445,7 @@ func TestVerifC09Switch(t *testing.T) {
 			}
 
 		case anyOK:
-			fail("DROPPED although a candidate link is eligible and "+
+			fail("DROPPED although a candidate link is eligible and " +
 				"exact arithmetic says every rule holds")
 
 		default:
